@@ -8,6 +8,7 @@ package simfs
 import (
 	"errors"
 	"fmt"
+	"strings"
 
 	"github.com/ysugimoto/falco/v2/ast"
 	"github.com/ysugimoto/falco/v2/resolver"
@@ -40,8 +41,10 @@ func (s *Store) Resolve(inc *ast.IncludeStatement) (*resolver.VCL, error) {
 	if s.Budget > 0 && s.Calls > s.Budget {
 		panic(ResolveBudget)
 	}
-	if src, ok := s.Modules[stmt]; ok {
-		return &resolver.VCL{Name: stmt + ".vcl", Data: src}, nil
+	// like falco's FileResolver: the module may be written with or without ".vcl"
+	key := strings.TrimSuffix(stmt, ".vcl")
+	if src, ok := s.Modules[key]; ok {
+		return &resolver.VCL{Name: key + ".vcl", Data: src}, nil
 	}
 	s.Missing++
 	return nil, fmt.Errorf("failed to resolve include file: %s.vcl", stmt)
